@@ -72,7 +72,7 @@ def enforceLine (l : List Char) : List Char :=
     let fl := splitComma g
     if !fl.contains complainW then l
     else
-      let fl' := fl.erase complainW
+      let fl' := fl.filter (fun f => f != complainW)
       (eraseFlags l).dropLast.dropLast ++ (if fl'.isEmpty then ['{'] else flagsClause fl')
 
 /-- apply `f` to every header line: a line ending in ` {` that is followed by a newline -/
